@@ -41,10 +41,12 @@ def query (s : St) : String :=
         | .none => "-"
         | .panic => "P"
       let part := (getPart f id).isSome
+      -- the genesis block carries no extension (rfc0044 extensions start with block 1)
+      let ext := part && id != 0
       let t := if part then blk.txs.length else 0
       let k := if (getPacked f id).isSome then "=" else "-"
       let m := if (f.v.m.rindex id).isSome then "m" else "s"
-      some s!"b{id}:{flag h}{b}{t}{flag part}{flag part}{flag part}{flag part}{k}{m}"
+      some s!"b{id}:{flag h}{b}{t}{flag part}{flag part}{flag part}{flag ext}{k}{m}"
   let ts := txIds.filterMap fun t =>
     match f.v.m.txInfo t with
     | none => none
@@ -64,6 +66,19 @@ def step (s : St) (ts : List String) : St × String :=
     | .panic => (s', "panic")
   | ["restart"] => (s, s!"ok {s.frozen.length + 1}")
   | ["query"] => (s, query s)
+  | "block" :: _ =>
+    match C02.parseBlock s.c ts with
+    | none => (s, "bad-op")
+    | some (c1, b) =>
+      if 0 < b.number && b.number < s.frozen.length + 1 then
+        -- a block stored at an already frozen height: `get_block(hash)` hands the chain service the
+        -- frozen main-chain block of that height instead, which is already verified: nothing but
+        -- `insert_block` happens
+        let (c2, out) := C02.commit c1 ⟨c1.v.m, Store.insertBlock c1.v.r b⟩ "known "
+        ({ s with c := c2 }, out)
+      else
+        let (c2, out) := C02.commit c1 (process c1.v b) "new "
+        ({ s with c := c2 }, out)
   | _ =>
     let (c', out) := C02.step s.c ts
     ({ s with c := c' }, out)
